@@ -1,5 +1,6 @@
 import NTV.Proofs.Lemmas.PolyModBasics
 import NTV.Proofs.Lemmas.PolyDivremMod
+import NTV.Proofs.Lemmas.PolyGcdMod
 /-! # C12 — roots modulo p with multiplicity: what is proved about the model so far.
 The full statement (the returned multiset equals the roots with multiplicity) is certified on every
 explored case by an independent brute-force / planted-root oracle; see lib/propinfo.py. -/
@@ -28,5 +29,23 @@ theorem division_contract (a b : List Int) (p : Nat) (hp : p.Prime) (ha : a ≠ 
     (NTV.PolyMod.polyDivrem a b p).2.length < b.length ∧
     NTV.PolyG.Canon (NTV.PolyMod.polyDivrem a b p).1 ∧ NTV.PolyG.Canon (NTV.PolyMod.polyDivrem a b p).2 :=
   NTV.PolyMod.polyDivrem_contract_prime a b p hp ha hb hab hlc
+
+/-- every gcd the routine takes, `poly_gcd(a, b, p)` on reduced canonical arguments, returns a
+polynomial that divides both arguments modulo the prime p (and is reduced and canonical): so every
+polynomial split off by a gcd is a divisor of the current cofactor -/
+theorem gcd_divides_both (p : Nat) (hp : p.Prime) (a b g : List Int)
+    (hra : NTV.PolyMod.Reduced (p : Int) a) (hrb : NTV.PolyMod.Reduced (p : Int) b)
+    (hca : NTV.PolyG.Canon a) (hcb : NTV.PolyG.Canon b) (h : NTV.PolyMod.polyGcd a b (p : Int) = .ok g) :
+    NTV.PolyMod.DvdP p (NTV.PolyG.toPoly g) (NTV.PolyG.toPoly a) ∧
+    NTV.PolyMod.DvdP p (NTV.PolyG.toPoly g) (NTV.PolyG.toPoly b) ∧
+    NTV.PolyMod.Reduced (p : Int) g ∧ NTV.PolyG.Canon g :=
+  NTV.PolyMod.polyGcd_dvd p hp a b g hra hrb hca hcb h
+
+/-- the reduction applied to the input first: `poly_mod(f, p)` has coefficients in [0, p), is canonical
+and congruent to f -/
+theorem input_reduction (f : List Int) (p : Int) (hp : 0 < p) :
+    NTV.PolyMod.Reduced p (NTV.PolyMod.polyMod f p) ∧ NTV.PolyG.Canon (NTV.PolyMod.polyMod f p) ∧
+    NTV.Hensel.PCong p (NTV.PolyG.toPoly (NTV.PolyMod.polyMod f p)) (NTV.PolyG.toPoly f) :=
+  NTV.PolyMod.polyMod_reduced f p hp
 
 end NTV.C12
